@@ -308,12 +308,12 @@ pub fn nsec3_chain(zone: &Zone, salt: &[u8], iterations: u16, opt_out: bool) -> 
 impl NsecRec {
     /// NS set, SOA clear: the parent-side NSEC of a delegation point ("ancestor delegation",
     /// RFC 6840 4.1).
-    fn is_delegation(&self) -> bool {
+    pub fn is_delegation(&self) -> bool {
         self.types.contains(&z::T_NS) && !self.types.contains(&z::T_SOA)
     }
     /// The name sorts after the owner and before the next name (or the record is the last of
     /// its zone's chain and the name is in that zone).
-    fn covers(&self, name: &Name) -> bool {
+    pub fn covers(&self, name: &Name) -> bool {
         name.at_or_below(&self.zone) && self.owner < *name && (*name < self.next || self.next == self.zone)
     }
     /// RFC 6840 4.1: an ancestor-delegation NSEC (or one with DNAME) says nothing about names
@@ -331,7 +331,7 @@ impl NsecRec {
     }
     /// The closest encloser of a name this record denies: the longest ancestor shared with the
     /// owner or with the next name (both exist, hence so do all their ancestors).
-    fn closest_encloser(&self, name: &Name) -> Name {
+    pub fn closest_encloser(&self, name: &Name) -> Name {
         let k = name
             .common_suffix_len(&self.owner)
             .max(name.common_suffix_len(&self.next))
@@ -348,8 +348,9 @@ pub fn nsec_proves(recs: &[&NsecRec], qname: &Name, qtype: u16, claim: &Claim, h
     match claim {
         Claim::NxDomain => recs.iter().any(|r1| {
             r1.denies(qname) && {
+                // (if the query name is itself `*.<closest encloser>`, r1 has just denied it)
                 let w = r1.closest_encloser(qname).wildcard_child();
-                w != *qname && recs.iter().any(|r2| r2.denies(&w))
+                recs.iter().any(|r2| r2.denies(&w))
             }
         }),
         Claim::NoData => {
